@@ -742,6 +742,17 @@ impl<'a> Exec<'a> {
                 }
             }
             Prim::IterInvalidateAll { after } => {
+                // known finding S6: same avoidance as for a plain invalidate_all
+                if self.is_sync() && self.avoid_s6 {
+                    let trigger = self.keys.values().any(|m| m.cur.as_ref().map_or(false, |e| e.acc_hi == now && e.t_mod < now));
+                    if trigger {
+                        self.sub().advance(1);
+                        self.now += 1;
+                        self.stats.inc("excluded_S6");
+                        self.tr("advance 1ns (avoiding known finding S6)".into());
+                    }
+                }
+                let now = self.now;
                 if let Some((a, b)) = self.sub().iter_with_invalidate_all(after as usize) {
                     for (k, seq, _) in &a {
                         self.check_shown(step, "iter", *k, *seq)?;
